@@ -6,14 +6,15 @@ registered checks run with VERIF_REPO pointing at it; any violation key that the
 false alarm.  Results: /verif/seeded/BENIGN_RESULTS.json"""
 import glob, json, os, re, subprocess, sys
 VERIF = "/verif"
-WT = "/tmp/mut/benign"
+SLOT = os.environ.get("RUN_SLOT", "")
+WT = "/tmp/mut/benign" + SLOT
 
 def sh(cmd, cwd=None, env=None):
     r = subprocess.run(cmd, shell=True, cwd=cwd, env=env, stdout=subprocess.PIPE, stderr=subprocess.STDOUT, text=True)
     return r.returncode, r.stdout
 
 def run_check(prop, tier):
-    env = dict(os.environ, VERIF_REPO=WT, VERIF_OUT="/tmp/mut/out_benign", VERIF_FACTS_KEEP="4")
+    env = dict(os.environ, VERIF_REPO=WT, VERIF_OUT="/tmp/mut/out_benign" + SLOT, VERIF_FACTS_KEEP="12")
     rc, out = sh("./check %s --tier %s" % (prop, tier), cwd=VERIF, env=env)
     keys = set(re.findall(r"rule=\S+ key=(.*?)(?: at \S+)?$", out, re.M))
     return rc, keys, out
@@ -31,7 +32,7 @@ def main():
     sh("git checkout -q --detach %s && git checkout -q -- . && git clean -qfd" % head, cwd=WT)
     props = [c["property_id"] for c in json.load(open(os.path.join(VERIF, "MANIFEST.json")))["checks"]]
     base = {p: run_check(p, tier)[1] for p in props}
-    res_path = os.path.join(VERIF, "seeded", "BENIGN_RESULTS.json")
+    res_path = os.path.join(VERIF, "seeded", "BENIGN_RESULTS%s.json" % SLOT)
     results = json.load(open(res_path)) if os.path.exists(res_path) else {}
     for d in sorted(glob.glob(os.path.join(VERIF, "seeded", "benign", "B*", "[0-9]"))):
         tag = "/".join(d.split("/")[-2:])
